@@ -13,7 +13,7 @@ structure LInv (x : Inst) : Prop where
   coherent : x.pendingFlag = none → x.stopPendingTrans = false → (x.flag = true ↔ x.state = 2)
   /-- inside the critical section of a promotion the flag is still down; in the one of a demotion the state already changed -/
   pendTrue : x.pendingFlag = some true → x.flag = false ∧ x.state = 2
-  pendFalse : x.pendingFlag = some false → (x.state = 3 ∧ x.running = true) ∨ x.state = 5
+  pendFalse : x.pendingFlag = some false → (x.state = 3 ∧ (x.running = true ∨ x.ctxCancelled = true)) ∨ x.state = 5
   /-- documented states only -/
   states : x.state = 0 ∨ x.state = 1 ∨ x.state = 2 ∨ x.state = 3 ∨ x.state = 5
   /-- callback bookkeeping: promotions started or owed = demotions started or owed + (flag raised) -/
@@ -22,7 +22,7 @@ structure LInv (x : Inst) : Prop where
   /-- at most one demotion is owed, and none while the flag is raised -/
   atMostOne : x.demoteOwed + x.stopDemoteOwed + b2n x.flag ≤ 1
   /-- a raised flag (or a promotion in progress) needs a running election -/
-  leadRunning : (x.flag = true ∨ x.pendingFlag = some true) → x.running = true ∨ x.stopPendingTrans = true ∨ x.pendingFlag = some false
+  leadRunning : (x.flag = true ∨ x.pendingFlag = some true) → x.running = true ∨ x.stopPendingTrans = true ∨ x.pendingFlag = some false ∨ x.ctxCancelled = true
   /-- after a stop call's critical section, until the next Start: STOPPED and not leader -/
   stopped : x.everStopped = true → x.stopPendingTrans = false → x.pendingFlag = none → x.state = 5 ∧ x.flag = false
   stopNotRunning : x.everStopped = true → x.running = false
@@ -31,6 +31,8 @@ structure LInv (x : Inst) : Prop where
   owedTerm : x.promoOwed.isSome = true → x.demoteOwed + x.stopDemoteOwed + b2n x.flag = 1
   /-- a promotion context whose term is not over belongs to the term in progress -/
   ctxLive : ∀ c ∈ x.ctxs, c.termOver = false → x.flag = true ∧ x.termTok = c.tok
+  /-- a run whose context was cancelled by the caller is neither running nor stopped by a stop call -/
+  cancelled : x.ctxCancelled = true → x.everStopped = false ∧ x.running = false ∧ x.stopPendingTrans = false
 
 theorem linv_init (id : Nat) (cb : Bool) : LInv { id := id, callbacks := cb } where
   coherent := by intro _ _; simp
@@ -46,12 +48,13 @@ theorem linv_init (id : Nat) (cb : Bool) : LInv { id := id, callbacks := cb } wh
   pendingStop := by intro h; simp at h
   owedTerm := by intro h; simp at h
   ctxLive := by intro c hc; simp at hc
+  cancelled := by intro h; simp at h
 
 
 
-theorem clearFlag_inv {x : Inst} (inv : LInv x) (h : x.pendingFlag = some false ∨ (x.pendingFlag = none ∧ ¬ (x.flag = true ∧ x.running = true))) :
+theorem clearFlag_inv {x : Inst} (inv : LInv x) (h : x.pendingFlag = some false ∨ (x.pendingFlag = none ∧ ¬ (x.flag = true ∧ (x.running = true ∨ x.ctxCancelled = true)))) :
     LInv (clearFlag x) := by
-  obtain ⟨c1, c2, c3, c4, c5, c6, c7, c8, c9, c10, c11, c12, c13⟩ := inv
+  obtain ⟨c1, c2, c3, c4, c5, c6, c7, c8, c9, c10, c11, c12, c13, c14⟩ := inv
   unfold clearFlag
   constructor
   case ctxLive =>
@@ -68,15 +71,25 @@ theorem clearFlag_inv {x : Inst} (inv : LInv x) (h : x.pendingFlag = some false 
     cases hf : x.flag <;> cases hc : x.callbacks <;> by_cases hs : x.state = 5 <;>
       simp_all [b2n, o2n] <;> try omega)
   all_goals (rcases h with h | h <;> simp_all <;> try omega)
+  all_goals (try (cases he : x.everStopped <;> cases hcc : x.ctxCancelled <;> cases hr : x.running <;> cases hsp : x.stopPendingTrans <;> simp_all <;> done))
 
 theorem stepTrans_inv {x x' : Inst} {f t : Nat} (inv : LInv x) (h : stepTrans x f t = .ok x') : LInv x' := by
-  obtain ⟨c1, c2, c3, c4, c5, c6, c7, c8, c9, c10, c11, c12, c13⟩ := inv
+  obtain ⟨c1, c2, c3, c4, c5, c6, c7, c8, c9, c10, c11, c12, c13, c14⟩ := inv
+  have hsp : (x.running = true ∨ x.ctxCancelled = true) → x.stopPendingTrans = false := by
+    intro hh
+    cases hs : x.stopPendingTrans with
+    | false => rfl
+    | true =>
+      rcases hh with hh | hh
+      · have := (c11 hs).2.1; rw [hh] at this; cases this
+      · have := (c14 hh).2.2; rw [hs] at this; cases this
   unfold stepTrans at h
   repeat' split at h
   all_goals first
     | (cases h; done)
     | (cases h
-       constructor <;> simp_all [b2n, o2n] <;> try omega)
+       constructor <;> simp_all [b2n, o2n] <;> (try omega) <;>
+         (try (cases he : x.everStopped <;> cases hcc : x.ctxCancelled <;> cases hr : x.running <;> cases hsp : x.stopPendingTrans <;> simp_all <;> done)))
 
 theorem stepFlag_inv {x x' : Inst} {b il : Bool} {tok lid : Nat} (inv : LInv x) (h : stepFlag x b il tok lid = .ok x') : LInv x' := by
   unfold stepFlag at h
@@ -92,13 +105,14 @@ theorem stepFlag_inv {x x' : Inst} {b il : Bool} {tok lid : Nat} (inv : LInv x) 
           · split at h
             · cases h
             · cases h
-              obtain ⟨c1, c2, c3, c4, c5, c6, c7, c8, c9, c10, c11, c12, c13⟩ := inv
+              obtain ⟨c1, c2, c3, c4, c5, c6, c7, c8, c9, c10, c11, c12, c13, c14⟩ := inv
               constructor
               case ctxLive =>
                 intro c hc hto
                 have := c13 c hc hto
                 simp_all
               all_goals (cases hc : x.callbacks <;> simp_all [b2n, o2n] <;> try omega)
+              all_goals (try (cases he : x.everStopped <;> cases hcc : x.ctxCancelled <;> cases hr : x.running <;> cases hsp : x.stopPendingTrans <;> simp_all <;> done))
         · cases h
           apply clearFlag_inv inv
           left
@@ -112,7 +126,7 @@ theorem stepFlag_inv {x x' : Inst} {b il : Bool} {tok lid : Nat} (inv : LInv x) 
           exact clearFlag_inv inv (Or.inr ⟨hn, hg⟩)
 
 theorem stepPromote_inv {x x' : Inst} {tok cid : Nat} {dn : Bool} (inv : LInv x) (h : stepPromote x tok cid dn = .ok x') : LInv x' := by
-  obtain ⟨c1, c2, c3, c4, c5, c6, c7, c8, c9, c10, c11, c12, c13⟩ := inv
+  obtain ⟨c1, c2, c3, c4, c5, c6, c7, c8, c9, c10, c11, c12, c13, c14⟩ := inv
   unfold stepPromote at h
   repeat' split at h
   all_goals first
@@ -130,7 +144,7 @@ theorem stepPromote_inv {x x' : Inst} {tok cid : Nat} {dn : Bool} (inv : LInv x)
        all_goals (cases hc : x.callbacks <;> simp_all [b2n, o2n] <;> try omega))
 
 theorem stepDemote_inv {x x' : Inst} (inv : LInv x) (h : stepDemote x = .ok x') : LInv x' := by
-  obtain ⟨c1, c2, c3, c4, c5, c6, c7, c8, c9, c10, c11, c12, c13⟩ := inv
+  obtain ⟨c1, c2, c3, c4, c5, c6, c7, c8, c9, c10, c11, c12, c13, c14⟩ := inv
   unfold stepDemote at h
   repeat' split at h
   all_goals first
@@ -140,7 +154,7 @@ theorem stepDemote_inv {x x' : Inst} (inv : LInv x) (h : stepDemote x = .ok x') 
 
 theorem ctxs_map_inv {x : Inst} (inv : LInv x) (g : Ctx → Ctx) (hg : ∀ c, (g c).termOver = c.termOver ∧ (g c).tok = c.tok) :
     LInv { x with ctxs := x.ctxs.map g } := by
-  obtain ⟨c1, c2, c3, c4, c5, c6, c7, c8, c9, c10, c11, c12, c13⟩ := inv
+  obtain ⟨c1, c2, c3, c4, c5, c6, c7, c8, c9, c10, c11, c12, c13, c14⟩ := inv
   constructor
   case ctxLive =>
     intro c hc hto
@@ -183,27 +197,47 @@ namespace NLE.Life
 
 /-- A stop call begins (not refused): the election stops running; the call's critical section follows. -/
 theorem stopBegin_inv {x : Inst} (inv : LInv x) (hp : x.pendingFlag = none) (n : Nat) :
-    LInv { x with stops := { n := n, wasLeader := x.flag } :: x.stops, running := false, everStopped := true, stopPendingTrans := true, startFailed := false } := by
-  obtain ⟨c1, c2, c3, c4, c5, c6, c7, c8, c9, c10, c11, c12, c13⟩ := inv
+    LInv { x with stops := { n := n, wasLeader := x.flag } :: x.stops, running := false, everStopped := true, stopPendingTrans := true, startFailed := false, ctxCancelled := false } := by
+  obtain ⟨c1, c2, c3, c4, c5, c6, c7, c8, c9, c10, c11, c12, c13, c14⟩ := inv
   constructor
   case ctxLive => exact c13
   all_goals simp_all [b2n, o2n]
 
 /-- A Start that failed half-way changes nothing the invariant speaks about. -/
 theorem startFail_inv {x : Inst} (inv : LInv x) : LInv { x with ctxNil := false, startFailed := true } := by
-  obtain ⟨c1, c2, c3, c4, c5, c6, c7, c8, c9, c10, c11, c12, c13⟩ := inv
-  exact ⟨c1, c2, c3, c4, c5, c6, c7, c8, c9, c10, c11, c12, c13⟩
+  obtain ⟨c1, c2, c3, c4, c5, c6, c7, c8, c9, c10, c11, c12, c13, c14⟩ := inv
+  exact ⟨c1, c2, c3, c4, c5, c6, c7, c8, c9, c10, c11, c12, c13, c14⟩
+
+/-- The caller's context is cancelled: nothing runs any more; a raised flag is about to be cleared by `stepDown`. -/
+theorem cancelCtx_inv {x : Inst} (inv : LInv x) (hp : x.pendingFlag = none) (hr : x.running = true) :
+    LInv { x with running := false, ctxCancelled := true, ctxs := x.ctxs.map fun c => { c with termOver := true } } := by
+  obtain ⟨c1, c2, c3, c4, c5, c6, c7, c8, c9, c10, c11, c12, c13, c14⟩ := inv
+  have he : x.everStopped = false := by
+    cases he : x.everStopped with
+    | false => rfl
+    | true => have := c10 he; rw [hr] at this; cases this
+  have hs : x.stopPendingTrans = false := by
+    cases hs : x.stopPendingTrans with
+    | false => rfl
+    | true => have := (c11 hs).2.1; rw [hr] at this; cases this
+  constructor
+  case ctxLive =>
+    intro c hc hto
+    simp only [List.mem_map] at hc
+    obtain ⟨c0, _, rfl⟩ := hc
+    simp at hto
+  all_goals simp_all [b2n, o2n]
 
 theorem startRet_inv {x : Inst} (inv : LInv x) (hf : x.flag = false) (hp : x.pendingFlag = none) (hs : x.stopPendingTrans = false) :
-    LInv { x with running := true, everStopped := false, ctxNil := false, state := 1 } := by
-  obtain ⟨c1, c2, c3, c4, c5, c6, c7, c8, c9, c10, c11, c12, c13⟩ := inv
+    LInv { x with running := true, everStopped := false, ctxNil := false, ctxCancelled := false, state := 1 } := by
+  obtain ⟨c1, c2, c3, c4, c5, c6, c7, c8, c9, c10, c11, c12, c13, c14⟩ := inv
   constructor
   case ctxLive => exact c13
   all_goals simp_all [b2n, o2n]
 
 theorem stopRet_inv {x : Inst} (inv : LInv x) (hs : x.stopPendingTrans = false) (n : Nat) (d : Bool) :
     LInv { x with stops := x.stops.filter (·.n ≠ n), ctxNil := x.ctxNil || d } := by
-  obtain ⟨c1, c2, c3, c4, c5, c6, c7, c8, c9, c10, c11, c12, c13⟩ := inv
+  obtain ⟨c1, c2, c3, c4, c5, c6, c7, c8, c9, c10, c11, c12, c13, c14⟩ := inv
   constructor
   case ctxLive => exact c13
   all_goals simp_all [b2n, o2n]
@@ -211,7 +245,7 @@ theorem stopRet_inv {x : Inst} (inv : LInv x) (hs : x.stopPendingTrans = false) 
 /-- A stop call that found the election already stopped (e.ctx == nil) did nothing. -/
 theorem rollback_inv {x : Inst} (inv : LInv x) (h5 : x.state = 5) (hf : x.flag = false) (hp : x.pendingFlag = none) (n : Nat) :
     LInv { x with stops := x.stops.filter (·.n ≠ n), stopPendingTrans := false } := by
-  obtain ⟨c1, c2, c3, c4, c5, c6, c7, c8, c9, c10, c11, c12, c13⟩ := inv
+  obtain ⟨c1, c2, c3, c4, c5, c6, c7, c8, c9, c10, c11, c12, c13, c14⟩ := inv
   constructor
   case ctxLive => exact c13
   all_goals simp_all [b2n, o2n]
@@ -268,6 +302,23 @@ theorem step_inv {s s' : Sys} {e : TEv} (inv : SysInv s) (h : step s e = .ok s')
             · cases h; exact inv
             · cases h
               exact set_inv inv (stopBegin_inv hxi hpn _)
+          · cases h; exact inv
+    · -- the caller's context is cancelled
+      split at h
+      · cases h; exact inv
+      · rename_i x hx
+        have hxi := inv x (get_mem hx)
+        split at h
+        · cases h
+        · rename_i hpf
+          have hpn : x.pendingFlag = none := by
+            cases hp : x.pendingFlag with
+            | none => rfl
+            | some _ => simp [hp] at hpf
+          split at h
+          · rename_i hr
+            cases h
+            exact set_inv inv (cancelCtx_inv hxi hpn hr)
           · cases h; exact inv
     · -- apiRet
       rename_i n i r
